@@ -32,7 +32,7 @@ REGISTRY = {
     "C10": ["store_independent", "world_never_requested", "batchQuery_no_world", "cache_never_forgets",
             "cacheMerge_faithful"],
     "C11": ["flag_only_gates_overdraft", "overdraft_gated", "store_independent", "interpreter_keeps_no_state"],
-    "C12": ["text_run_never_panics", "run_never_panics", "evalExpr_never_panics", "getBalance_store_failure", "run_preload_failure",
+    "C12": ["api_failure_is_atomic", "api_is_RunProgram", "apiRun_no_flag", "api_never_panics", "text_run_never_panics", "run_never_panics", "evalExpr_never_panics", "getBalance_store_failure", "run_preload_failure",
             "meta_store_failure", "runBalancesQuery_no_call"],
     "C13": ["digitsVal_eq_posValue", "digitsVal_append_digit", "ratio_literal_exact", "percent_literal_exact",
             "percent_frac_literal_exact", "portion_var_ratio", "portion_var_percent", "portion_var_ratio_rejected",
